@@ -52,11 +52,11 @@ mut("M3", "C14", "RootFilterQuery memo keyed by id(root) (stale after the root d
     (P + "filter_expressions.py", "        return JSONPathNodeList(self.query.find(context.root))",
      "        key = (str(self.query), id(context.root))\n        if key not in _ROOT_MEMO:\n            if len(_ROOT_MEMO) > 64:\n                _ROOT_MEMO.clear()\n            _ROOT_MEMO[key] = JSONPathNodeList(self.query.find(context.root))\n        return _ROOT_MEMO[key]"),
 ])
-mut("M3b", "C14", "RootFilterQuery memo kept on the expression object, keyed by nothing (first root wins)", [
+mut("M3b", "C14", "RootFilterQuery memo kept on the expression object (first root wins, refreshed only for a root of another type)", [
     (P + "filter_expressions.py", "class RootFilterQuery(FilterQuery):\n    \"\"\"A JSONPath expression starting at the root node.\"\"\"\n\n    __slots__ = ()",
      "class RootFilterQuery(FilterQuery):\n    \"\"\"A JSONPath expression starting at the root node.\"\"\"\n\n    __slots__ = (\"_memo\",)"),
     (P + "filter_expressions.py", "        return JSONPathNodeList(self.query.find(context.root))",
-     "        memo = getattr(self, \"_memo\", None)\n        if memo is None or memo[0] is not context.root and memo[0] != context.root:\n            memo = (context.root, JSONPathNodeList(self.query.find(context.root)))\n            self._memo = memo\n        return memo[1]"),
+     "        memo = getattr(self, \"_memo\", None)\n        if memo is None or type(memo[0]) is not type(context.root) or len(memo[0]) != len(context.root):\n            memo = (context.root, JSONPathNodeList(self.query.find(context.root)))\n            self._memo = memo\n        return memo[1]"),
 ])
 mut("M4", "C14", "negative-step slice implemented with an in-place reverse() that is not undone on early exit", [
     (P + "selectors.py", "        if isinstance(node.value, list) and self.slice.step != 0:\n            for idx, element in zip(  # noqa: B905\n                range(*self.slice.indices(len(node.value))), node.value[self.slice]\n            ):\n                yield node.new_child(element, idx)",
@@ -127,7 +127,7 @@ mut("M17", "C18", "> becomes >= in the depth check", [
     (P + "segments.py", "                if depth + len(stack) - 1 > self.env.max_recursion_depth:", "                if depth + len(stack) - 1 >= self.env.max_recursion_depth:"),
 ])
 mut("M18", "C18", "nondeterministic mode: no up-front bound check (bound lost in nondeterministic mode)", [
-    (P + "segments.py", "        for _ in self._visit(root, depth):\n            pass\n", "        if not isinstance(root.value, dict):\n            for _ in self._visit(root, depth):\n                pass\n"),
+    (P + "segments.py", "        for _ in self._visit(root, depth):\n            pass\n", "        if not isinstance(root.value, list):\n            for _ in self._visit(root, depth):\n                pass\n"),
 ])
 mut("M19", "C18", "configured limits below 3 are silently treated as 3", [
     (P + "segments.py", "                if depth + len(stack) - 1 > self.env.max_recursion_depth:", "                if depth + len(stack) - 1 > max(self.env.max_recursion_depth, 3):"),
